@@ -125,7 +125,7 @@ Qed.
 
 Variable thT thS : string -> sty.
 Variable IC : string -> sty -> V.
-Variable sigV sigS : string -> sty -> V.
+Variable sigV sigS : string -> ty -> V.
 Notation tysem := (tysem thT thS).
 Notation eval := (eval DC thT thS IC sigV sigS).
 
@@ -191,12 +191,13 @@ Proof.
 Qed.
 
 (* typing: a checked term evaluates into the domain of its type *)
-Definition val_ok (sig : string -> sty -> V) : Prop := forall n s, In (sig n s) (dom s).
+Definition ic_ok (ic : string -> sty -> V) : Prop := forall n s, In (ic n s) (dom s).
+Definition val_ok (sig : string -> ty -> V) : Prop := forall n T, In (sig n T) (dom (tysem T)).
 
 Definition env_ok (env : list (sty * V)) (bd : list ty) : Prop :=
   Forall2 (fun e B => fst e = tysem B /\ In (snd e) (dom (fst e))) env bd.
 
-Hypothesis IC_ok : val_ok IC.
+Hypothesis IC_ok : ic_ok IC.
 Hypothesis sigV_ok : val_ok sigV.
 Hypothesis sigS_ok : val_ok sigS.
 
@@ -242,3 +243,204 @@ Proof.
 Qed.
 
 End Model.
+
+(* ------------------------------------------------------------------ *)
+(* type instantiation: evaluating t[sigma] = evaluating t under the composed
+   assignment of schematic type variables *)
+Definition thS_subst (thT thS : string -> sty) (s : tyinst) : string -> sty :=
+  fun n => match lookup n s with Some U => tysem thT thS U | None => thS n end.
+
+Lemma tysem_subst : forall thT thS s T,
+  tysem thT thS (ty_subst s T) = tysem thT (thS_subst thT thS s) T.
+Proof.
+  intros thT thS s. induction T as [n|n|n args IH] using ty_ind'; cbn [ty_subst].
+  - unfold thS_subst. cbn [Sem.tysem]. destruct (lookup n s); reflexivity.
+  - reflexivity.
+  - cbn [Sem.tysem]. rewrite map_map.
+    assert (E : map (fun x => tysem thT thS (ty_subst s x)) args = map (tysem thT (thS_subst thT thS s)) args).
+    { induction IH as [|x l Hx Hl IHl]; [reflexivity|]. cbn [map]. rewrite Hx, IHl. reflexivity. }
+    rewrite E. reflexivity.
+Qed.
+
+Lemma eval_subst_type : forall DC thT thS IC sigV sigS s t env,
+  eval DC thT thS IC sigV sigS env (tm_subst_type s t) =
+  eval DC thT (thS_subst thT thS s) IC (fun n T => sigV n (ty_subst s T)) (fun n T => sigS n (ty_subst s T)) env t.
+Proof.
+  intros DC thT thS IC sigV sigS s. induction t as [n T|n T|n T|f IHf a IHa|x T b IHb|k]; intros env; cbn [tm_subst_type Sem.eval].
+  - rewrite tysem_subst. reflexivity.
+  - rewrite tysem_subst. reflexivity.
+  - rewrite tysem_subst. reflexivity.
+  - rewrite IHf, IHa. reflexivity.
+  - rewrite tysem_subst.
+    assert (E : forall l, map (fun v => eval DC thT thS IC sigV sigS ((tysem thT (thS_subst thT thS s) T, v) :: env) (tm_subst_type s b)) l =
+                map (fun v => eval DC thT (thS_subst thT thS s) IC (fun n T0 => sigV n (ty_subst s T0)) (fun n T0 => sigS n (ty_subst s T0))
+                             ((tysem thT (thS_subst thT thS s) T, v) :: env) b) l).
+    { intros l. apply map_ext. intro v. apply IHb. }
+    rewrite E. reflexivity.
+  - reflexivity.
+Qed.
+
+(* ------------------------------------------------------------------ *)
+(* updating the valuation of one variable; abstraction over a variable *)
+Definition upd (sig : string -> ty -> V) (n : string) (T : ty) (v : V) : string -> ty -> V :=
+  fun m U => if String.eqb n m && ty_eqb T U then v else sig m U.
+
+Lemma checked_closed : forall t bd T, checked_get_type_rec t bd = Some T -> is_open_rec t (List.length bd) = false.
+Proof.
+  induction t as [n T0|n T0|n T0|f IHf a IHa|x U b IHb|k]; intros bd T H; cbn [is_open_rec]; try reflexivity.
+  - cbn [checked_get_type_rec] in H.
+    destruct (checked_get_type_rec f bd) as [Tf|] eqn:Ef; [|discriminate].
+    destruct (checked_get_type_rec a bd) as [Ta|] eqn:Ea; [|destruct (is_fun_name Tf); [destruct Tf as [| |? [|? [|? ?]]]|]; discriminate].
+    rewrite (IHf _ _ Ef), (IHa _ _ Ea). reflexivity.
+  - cbn [checked_get_type_rec] in H. destruct (checked_get_type_rec b (U :: bd)) as [Tb|] eqn:Eb; [|discriminate].
+    apply (IHb _ _ Eb).
+  - cbn [checked_get_type_rec] in H. apply Nat.leb_gt. apply nth_error_Some. rewrite H. discriminate.
+Qed.
+
+Section Upd.
+Variable DC : string -> list sty -> nat.
+Variable thT thS : string -> sty.
+Variable IC : string -> sty -> V.
+Notation tysem := (tysem thT thS).
+Notation eval := (eval DC thT thS IC).
+
+(* a variable that does not occur does not matter *)
+Lemma eval_upd_var : forall n T v sigV sigS s env,
+  occurs_var true s (Var n T) = false -> eval (upd sigV n T v) sigS env s = eval sigV sigS env s.
+Proof.
+  intros n T v sigV sigS. induction s as [m U|m U|m U|f IHf a IHa|x U b IHb|k]; intros env H; cbn [Sem.eval occurs_var] in *; try reflexivity.
+  - cbn [tm_eqb] in H. unfold upd. rewrite String.eqb_sym, (ty_eqb_sym T U). rewrite H. reflexivity.
+  - apply orb_false_iff in H. destruct H as [H1 H2]. rewrite (IHf _ H1), (IHa _ H2). reflexivity.
+  - assert (E : forall l, map (fun v0 => eval (upd sigV n T v) sigS ((tysem U, v0) :: env) b) l = map (fun v0 => eval sigV sigS ((tysem U, v0) :: env) b) l)
+      by (intro l; apply map_ext; intro v0; apply IHb; exact H).
+    rewrite E. reflexivity.
+Qed.
+
+Lemma eval_upd_svar : forall n T v sigV sigS s env,
+  occurs_var true s (SVar n T) = false -> eval sigV (upd sigS n T v) env s = eval sigV sigS env s.
+Proof.
+  intros n T v sigV sigS. induction s as [m U|m U|m U|f IHf a IHa|x U b IHb|k]; intros env H; cbn [Sem.eval occurs_var] in *; try reflexivity.
+  - cbn [tm_eqb] in H. unfold upd. rewrite String.eqb_sym, (ty_eqb_sym T U). rewrite H. reflexivity.
+  - apply orb_false_iff in H. destruct H as [H1 H2]. rewrite (IHf _ H1), (IHa _ H2). reflexivity.
+  - assert (E : forall l, map (fun v0 => eval sigV (upd sigS n T v) ((tysem U, v0) :: env) b) l = map (fun v0 => eval sigV sigS ((tysem U, v0) :: env) b) l)
+      by (intro l; apply map_ext; intro v0; apply IHb; exact H).
+    rewrite E. reflexivity.
+Qed.
+
+(* abstracting over a variable = reading its value from the environment *)
+Lemma abstract_over_var_sem : forall n T v sigV sigS s k s' r1 r2,
+  abstract_over_rec s k (Var n T) = Some s' -> is_open_rec s k = false -> List.length r1 = k ->
+  eval sigV sigS (r1 ++ (tysem T, v) :: r2) s' = eval (upd sigV n T v) sigS (r1 ++ r2) s.
+Proof.
+  intros n T v sigV sigS. induction s as [m U|m U|m U|f IHf a IHa|x U b IHb|j]; intros k s' r1 r2 H Ho Hl; cbn [abstract_over_rec is_open_rec] in *.
+  - inversion H; subst s'. reflexivity.
+  - unfold upd. cbn [Sem.eval]. destruct (String.eqb m n) eqn:En.
+    + destruct (ty_eqb U T) eqn:ET; [|discriminate]. inversion H; subst s'. cbn [Sem.eval].
+      rewrite app_nth2 by lia. rewrite Hl, Nat.sub_diag. cbn [nth].
+      apply ty_eqb_eq in ET. subst U. rewrite String.eqb_sym, En. rewrite ty_eqb_refl. reflexivity.
+    + inversion H; subst s'. cbn [Sem.eval]. rewrite String.eqb_sym, En. reflexivity.
+  - inversion H; subst s'. reflexivity.
+  - apply orb_false_iff in Ho. destruct Ho as [Ho1 Ho2].
+    destruct (abstract_over_rec f k (Var n T)) as [f'|] eqn:Ef; [|discriminate].
+    destruct (abstract_over_rec a k (Var n T)) as [a'|] eqn:Ea; [|discriminate]. inversion H; subst s'.
+    cbn [Sem.eval]. rewrite (IHf _ _ _ _ Ef Ho1 Hl), (IHa _ _ _ _ Ea Ho2 Hl). reflexivity.
+  - destruct (abstract_over_rec b (S k) (Var n T)) as [b'|] eqn:Eb; [|discriminate]. inversion H; subst s'.
+    cbn [Sem.eval].
+    assert (E : forall l, map (fun v0 => eval sigV sigS ((tysem U, v0) :: r1 ++ (tysem T, v) :: r2) b') l =
+                          map (fun v0 => eval (upd sigV n T v) sigS ((tysem U, v0) :: r1 ++ r2) b) l).
+    { intro l. apply map_ext. intro v0. apply (IHb (S k) b' ((tysem U, v0) :: r1) r2 Eb Ho). cbn. lia. }
+    rewrite E. reflexivity.
+  - inversion H; subst s'. cbn [Sem.eval]. apply Nat.leb_gt in Ho. rewrite !app_nth1 by lia. reflexivity.
+Qed.
+
+Lemma abstract_over_svar_sem : forall n T v sigV sigS s k s' r1 r2,
+  abstract_over_rec s k (SVar n T) = Some s' -> is_open_rec s k = false -> List.length r1 = k ->
+  eval sigV sigS (r1 ++ (tysem T, v) :: r2) s' = eval sigV (upd sigS n T v) (r1 ++ r2) s.
+Proof.
+  intros n T v sigV sigS. induction s as [m U|m U|m U|f IHf a IHa|x U b IHb|j]; intros k s' r1 r2 H Ho Hl; cbn [abstract_over_rec is_open_rec] in *.
+  - unfold upd. cbn [Sem.eval]. destruct (String.eqb m n) eqn:En.
+    + destruct (ty_eqb U T) eqn:ET; [|discriminate]. inversion H; subst s'. cbn [Sem.eval].
+      rewrite app_nth2 by lia. rewrite Hl, Nat.sub_diag. cbn [nth].
+      apply ty_eqb_eq in ET. subst U. rewrite String.eqb_sym, En. rewrite ty_eqb_refl. reflexivity.
+    + inversion H; subst s'. cbn [Sem.eval]. rewrite String.eqb_sym, En. reflexivity.
+  - inversion H; subst s'. reflexivity.
+  - inversion H; subst s'. reflexivity.
+  - apply orb_false_iff in Ho. destruct Ho as [Ho1 Ho2].
+    destruct (abstract_over_rec f k (SVar n T)) as [f'|] eqn:Ef; [|discriminate].
+    destruct (abstract_over_rec a k (SVar n T)) as [a'|] eqn:Ea; [|discriminate]. inversion H; subst s'.
+    cbn [Sem.eval]. rewrite (IHf _ _ _ _ Ef Ho1 Hl), (IHa _ _ _ _ Ea Ho2 Hl). reflexivity.
+  - destruct (abstract_over_rec b (S k) (SVar n T)) as [b'|] eqn:Eb; [|discriminate]. inversion H; subst s'.
+    cbn [Sem.eval].
+    assert (E : forall l, map (fun v0 => eval sigV sigS ((tysem U, v0) :: r1 ++ (tysem T, v) :: r2) b') l =
+                          map (fun v0 => eval sigV (upd sigS n T v) ((tysem U, v0) :: r1 ++ r2) b) l).
+    { intro l. apply map_ext. intro v0. apply (IHb (S k) b' ((tysem U, v0) :: r1) r2 Eb Ho). cbn. lia. }
+    rewrite E. reflexivity.
+  - inversion H; subst s'. cbn [Sem.eval]. apply Nat.leb_gt in Ho. rewrite !app_nth1 by lia. reflexivity.
+Qed.
+
+Lemma val_ok_upd : forall sig n T v, val_ok DC thT thS sig -> In v (dom DC (tysem T)) -> val_ok DC thT thS (upd sig n T v).
+Proof.
+  intros sig n T v H Hv m U. unfold upd. destruct (String.eqb n m && ty_eqb T U) eqn:E; [|apply H].
+  apply andb_true_iff in E. destruct E as [_ E]. apply ty_eqb_eq in E. subst U. exact Hv.
+Qed.
+End Upd.
+
+(* ------------------------------------------------------------------ *)
+(* instantiating a bound variable: what typing of the RESULT says about the
+   substituted term (the kernel only calls get_type on it) *)
+Fixpoint occ (n : nat) (b : tm) : bool :=
+  match b with
+  | Comb f a => occ n f || occ n a
+  | Abs _ _ c => occ (S n) c
+  | Bound k => Nat.eqb k n
+  | _ => false
+  end.
+
+Lemma checked_closed_ctx : forall s pre ctx, is_open_rec s (List.length pre) = false ->
+  checked_get_type_rec s (pre ++ ctx) = checked_get_type_rec s pre.
+Proof.
+  induction s as [n T|n T|n T|f IHf a IHa|x T b IHb|k]; intros pre ctx H; cbn [checked_get_type_rec is_open_rec] in *; try reflexivity.
+  - apply orb_false_iff in H. destruct H as [H1 H2]. rewrite (IHf _ _ H1), (IHa _ _ H2). reflexivity.
+  - pose proof (IHb (T :: pre) ctx H) as E. cbn [Datatypes.app] in E. rewrite E. reflexivity.
+  - apply Nat.leb_gt in H. apply nth_error_app1. exact H.
+Qed.
+
+Lemma checked_open_incr : forall s lev n ctx, is_open_rec s lev = true -> List.length ctx = lev + n ->
+  checked_get_type_rec (incr_boundvars_rec s lev n) ctx = None.
+Proof.
+  induction s as [m T|m T|m T|f IHf a IHa|x T b IHb|k]; intros lev n ctx H Hl; cbn [incr_boundvars_rec is_open_rec checked_get_type_rec] in *; try discriminate.
+  - apply orb_true_iff in H. destruct H as [H|H].
+    + rewrite (IHf _ _ _ H Hl). reflexivity.
+    + rewrite (IHa _ _ _ H Hl). destruct (checked_get_type_rec (incr_boundvars_rec f lev n) ctx); reflexivity.
+  - rewrite (IHb (S lev) n (T :: ctx) H); [reflexivity | cbn; lia].
+  - rewrite H. cbn [checked_get_type_rec]. apply nth_error_None. apply Nat.leb_le in H. lia.
+Qed.
+
+Lemma subst_bound_typed_arg : forall b n s ctx R,
+  checked_get_type_rec (subst_bound_rec b n s) ctx = Some R -> List.length ctx = n -> occ n b = true ->
+  exists Ts, checked_get_type_rec s [] = Some Ts.
+Proof.
+  induction b as [m T|m T|m T|f IHf a IHa|x T c IHc|k]; intros n s ctx R H Hl Ho; cbn [subst_bound_rec occ checked_get_type_rec] in *; try discriminate.
+  - destruct (checked_get_type_rec (subst_bound_rec f n s) ctx) as [Tf|] eqn:Ef; [|discriminate].
+    destruct (checked_get_type_rec (subst_bound_rec a n s) ctx) as [Ta|] eqn:Ea; [|discriminate].
+    apply orb_true_iff in Ho. destruct Ho as [Ho|Ho]; [apply (IHf _ _ _ _ Ef Hl Ho) | apply (IHa _ _ _ _ Ea Hl Ho)].
+  - destruct (checked_get_type_rec (subst_bound_rec c (S n) s) (T :: ctx)) as [Tc|] eqn:Ec; [|discriminate].
+    apply (IHc (S n) s (T :: ctx) Tc Ec); [cbn; lia | exact Ho].
+  - rewrite Ho in H. destruct (is_open s) eqn:Eo.
+    + unfold incr_boundvars in H. rewrite (checked_open_incr s 0 n ctx Eo) in H by (cbn; lia). discriminate.
+    + exists R. rewrite <- (checked_closed_ctx s [] ctx Eo). exact H.
+Qed.
+
+Lemma not_occ_eval : forall DC thT thS IC sigV sigS b r1 e e' r2, occ (List.length r1) b = false ->
+  eval DC thT thS IC sigV sigS (r1 ++ e :: r2) b = eval DC thT thS IC sigV sigS (r1 ++ e' :: r2) b.
+Proof.
+  intros DC thT thS IC sigV sigS. induction b as [m T|m T|m T|f IHf a IHa|x T c IHc|k]; intros r1 e e' r2 H; cbn [occ Sem.eval] in *; try reflexivity.
+  - apply orb_false_iff in H. destruct H as [H1 H2]. rewrite (IHf _ e e' _ H1), (IHa _ e e' _ H2). reflexivity.
+  - assert (E : forall l, map (fun v => eval DC thT thS IC sigV sigS ((tysem thT thS T, v) :: r1 ++ e :: r2) c) l =
+                          map (fun v => eval DC thT thS IC sigV sigS ((tysem thT thS T, v) :: r1 ++ e' :: r2) c) l).
+    { intro l. apply map_ext. intro v. apply (IHc ((tysem thT thS T, v) :: r1) e e' r2 H). }
+    rewrite E. reflexivity.
+  - apply Nat.eqb_neq in H. destruct (Nat.lt_ge_cases k (List.length r1)) as [Hlt|Hge].
+    + rewrite !app_nth1 by lia. reflexivity.
+    + rewrite !app_nth2 by lia. replace (k - List.length r1) with (S (k - List.length r1 - 1)) by lia. reflexivity.
+Qed.
